@@ -355,6 +355,20 @@ func init() {
 		return p
 	}
 
+	planTable["C25"] = func(q bool) *Plan {
+		p := &Plan{Level: "model_checking", Engine: "E-sched + E-enum",
+			Text:      "Schedules: a Stream run with two producer goroutines over four accounts that lie in different key ranges races a committer that moves an amount from the first to the last account in one transaction; the producers (points after their transaction is created and at each range pick-up) and the committer are interleaved in every way up to the preemption bound; each account must be delivered exactly once and the delivered (first, last) pair must be a state some single snapshot holds (before or after the transfer, never mixed); Send never runs concurrently with itself. Configurations (sequential): 3 layouts (memtable only / last level in several small tables / last level + L0 + memtable; 15 keys with up to 3 versions and tombstones) x NumVersionsToKeep {1,100} x NumGo {1,2,3} x Prefix {none,k0,k1} x ChooseKey {all, even, odd} x SinceTs {0, mid}: the delivered KV lists (key, version, value, user meta, expiry; grouped per key, each key once) equal what one read snapshot taken at the start shows under the default KeyToList.",
+			Note:      "Producer goroutines are scheduled through the stream.txn / stream.range hook points; range boundaries come from the production DB.Ranges.",
+			Technique: "stateless model checking of the stream producers against a concurrent committer (controlled scheduler, preemption-bounded DFS) + bounded-exhaustive enumeration of configurations",
+			Rule:      "schedules up to the bound, distinct = distinct delivered (first,last) pairs; configurations = the full cross product"}
+		if q {
+			p.Stages = []Stage{sched("c25sched", 2, 8, 40, nil), en("c25seq", 16, 60, nil)}
+		} else {
+			p.Stages = []Stage{sched("c25sched", 3, 16, 300, nil), en("c25seq", 16, 300, nil)}
+		}
+		return p
+	}
+
 	planTable["C26"] = enumPlan("exploration",
 		"Stream contents: every non-empty subset of 5 user keys {a,ab,b,c,d} x 3 version patterns (two versions each / newest only / mixed), values at threshold-1/threshold/threshold+1, delete markers, user meta, expiry; split into one or two streams with disjoint key ranges at every key boundary; x {Prepare on a non-empty DB, PrepareIncremental on an empty DB, over data in the last level only, over L0 + last level (the Flatten branch)}; each stream cut into Write batches by 3 patterns (one batch / singletons / two halves that may separate a key's versions), the two streams' batches interleaved 4 ways (including both streams in one buffer), done markers absent / with the last batch / in a separate buffer, plain / encrypted / snappy / in-memory (quick: 2 rotating combinations of these four per (content, split, mode); thorough: all 432); table size 300 bytes so a stream spans several tables. After Flush: the dump of ALL versions (value, user meta, expiry, delete markers) equals exactly the streamed entries plus, in incremental mode, the pre-existing ones; levels are structurally valid and match the MANIFEST and the files; the same after close and re-open; the next commits get timestamps above every streamed version and are read back.",
 		"Drives StreamWriter.Prepare/PrepareIncremental/Write/Flush on the real DB.",
